@@ -54,13 +54,18 @@ type Report struct {
 
 // Sub runs another property's check keeping only the named rules.
 func (r *Report) Sub(f func(w *World, r *Report), rules ...string) {
-	saveE, saveN, saveA := r.Explanation, r.NotDecided, r.Assumptions
-	r.only = map[string]bool{}
+	saveE, saveN, saveA, saveOnly := r.Explanation, r.NotDecided, r.Assumptions, r.only
+	inner := map[string]bool{}
 	for _, x := range rules {
-		r.only[x] = true
+		if saveOnly == nil || saveOnly[x] {
+			inner[x] = true // nested: only what the outer selection also wants
+		}
 	}
-	f(r.W, r)
-	r.only = nil
+	r.only = inner
+	if len(inner) > 0 {
+		f(r.W, r)
+	}
+	r.only = saveOnly
 	r.Explanation, r.NotDecided, r.Assumptions = saveE, saveN, saveA
 }
 
